@@ -126,6 +126,20 @@ struct Outer {
     #[serde(rename = "by-key")]
     by_key: BTreeMap<DoubleKey, Rec2>,
     alias: Wrap2,
+    /// objects without declared fields (Conjure allows empty objects)
+    empty: Empty,
+    empties: Vec<Empty>,
+    #[serde(rename = "maybe-empty")]
+    maybe_empty: Option<Empty>,
+    single: Single,
+}
+
+#[derive(Serialize, Deserialize, Clone, Debug, PartialEq)]
+struct Empty {}
+
+#[derive(Serialize, Deserialize, Clone, Debug, PartialEq)]
+struct Single {
+    only: Option<Empty>,
 }
 
 #[derive(Serialize, Deserialize, Clone, Debug, PartialEq)]
@@ -169,6 +183,17 @@ fn outer_paths(o: &Outer) -> Vec<Pos> {
     }
     chain = vec!["Outer.alias"];
     rec2_paths(&o.alias.0, &[Member(4)], &mut chain, &mut out);
+    out.push(Pos { path: vec![Member(5)], chain: vec!["Outer.field", "Empty"] });
+    for (i, _) in o.empties.iter().enumerate() {
+        out.push(Pos { path: vec![Member(6), Idx(i)], chain: vec!["Outer.list", "Empty"] });
+    }
+    if o.maybe_empty.is_some() {
+        out.push(Pos { path: vec![Member(7)], chain: vec!["Outer.option", "Empty"] });
+    }
+    out.push(Pos { path: vec![Member(8)], chain: vec!["Outer.field", "Single"] });
+    if o.single.only.is_some() {
+        out.push(Pos { path: vec![Member(8), Member(0)], chain: vec!["Single.option", "Empty"] });
+    }
     out
 }
 
@@ -499,6 +524,10 @@ pub fn run(ctx: &Ctx, report: &mut Report) {
                 .map(|_| (DoubleKey(vcore::text::hostile_f64(&mut r)), gen_rec2(&mut r, d)))
                 .collect(),
             alias: Wrap2(gen_rec2(&mut r, d)),
+            empty: Empty {},
+            empties: (0..r.below(3)).map(|_| Empty {}).collect(),
+            maybe_empty: if r.bool() { Some(Empty {}) } else { None },
+            single: Single { only: if r.bool() { Some(Empty {}) } else { None } },
         };
         let positions = outer_paths(&o);
         run_one(rep, "direct", seed, &mut r, &o, positions);
